@@ -622,6 +622,10 @@ func ruleC06(c *Ctx) {
 		}
 		wantElem := "A.Conditions.ProxyRestriction.Audience[*].Value"
 		through := atoms["(i* + 1) < len(A.Conditions.ProxyRestriction.Audience)"]
+		zeroIter := atoms["!(0 < len(A.Conditions.ProxyRestriction.Audience))"]
+		if !through && !zeroIter {
+			c.bad("C06-R3", fname, "ProxyRestriction.Audience accumulate", pos, "the summary is produced without iterating the signed ProxyRestriction Audience list")
+		}
 		if through {
 			exhausted := atoms["!(((i* + 1) + 1) < len(A.Conditions.ProxyRestriction.Audience))"]
 			c.check(len(apps) == 1 && apps[0] == wantElem && exhausted, "C06-R3", fname, "ProxyRestriction.Audience accumulate", pos, "one append of "+wantElem+" per iteration, loop left by exhaustion",
